@@ -5,14 +5,17 @@
 d=$1; name=$2
 export CARGO_NET_OFFLINE=true CARGO_PROFILE_DEV_DEBUG=0 CARGO_INCREMENTAL=0
 cd /tmp/wt/base || exit 2
-git checkout -q -- . ; rm -f tests/zz_demo_*.rs
+git checkout -q -- . ; rm -f tests/zz_demo_*.rs bevy_replicon_example_backend/tests/zz_demo_*.rs
+# a demo for a change in the example backend lives in that crate's tests/
+loc=tests; pkg=""
+if grep -q "bevy_replicon_example_backend/tests" "$d/meta.json" 2>/dev/null && grep -q "bevy_replicon_example_backend/" "$d/patch.diff"; then loc=bevy_replicon_example_backend/tests; pkg="-p bevy_replicon_example_backend"; fi
 git apply --check "$d/patch.diff" 2>/dev/null || { echo "{\"name\": \"$name\", \"applies\": false}"; exit 1; }
 git apply "$d/patch.diff"
-cp "$d/demo.rs" tests/zz_demo_$name.rs
+cp "$d/demo.rs" $loc/zz_demo_$name.rs
 cargo test --workspace --no-fail-fast --offline > /tmp/wt/verify_$name.with.log 2>&1
 git checkout -q -- .
-cargo test --offline --test zz_demo_$name > /tmp/wt/verify_$name.without.log 2>&1
-rm -f tests/zz_demo_$name.rs
+cargo test --offline $pkg --test zz_demo_$name > /tmp/wt/verify_$name.without.log 2>&1
+rm -f $loc/zz_demo_$name.rs
 python3 - "$name" <<'PY'
 import re,sys,json
 name=sys.argv[1]
